@@ -115,7 +115,7 @@ func genFunctionSweep(r *rand.Rand, facts *c19Facts, tier string, acc map[string
 		"'2012-02-03 09:18:15'", "'NaN'", "'Inf'", "'['", `'{"a":[1,2]}'`, `'\'`, "'あいう'", "2147483648", "'1e400'", "@null"}
 	if tier == "thorough" {
 		nTriples, nMany = 300, 40
-		small = c19Vals
+		small = []string{"0", "1", "-1", "2", "9223372036854775807", "-9223372036854775808", "9223372036854775808", "1e308", "0.5", "NULL", "''", "'abc'", "TRUE", "'2012-02-03 09:18:15'", "2147483648", "'NaN'"}
 		singles = c19Vals
 	}
 	call := func(fn string, args []string) {
@@ -621,7 +621,8 @@ func encodeAs(r *rand.Rand, b []byte, enc string) []byte {
 
 var c19Encodings = []string{"AUTO", "UTF8", "UTF8M", "UTF16", "UTF16BE", "UTF16LE", "UTF16BEM", "UTF16LEM", "SJIS"}
 var c19Delims = []string{",", "\t", ";", "|", " ", ":", "あ", "\"", "\\t", "a", "1", "\n"}
-var c19Positions = []string{"SPACES", "spaces", "[1,3,5]", "[3]", "[]", "[1,2,3,4,5,6,7,8,9]", "S[2,4]", "S[]", "[100]", "[4,8,4000000000]", "[2, 5]", "[0,1]", "[1,1]"}
+// NB: "S[]" (single-line mode, no positions) never terminates (finding fixed-single-line-empty-positions): it is run once, from the corpus
+var c19Positions = []string{"SPACES", "spaces", "[1,3,5]", "[3]", "[]", "[1,2,3,4,5,6,7,8,9]", "S[2,4]", "S[1]", "[100]", "[4,8,4000000000]", "[2, 5]", "[0,1]", "[1,1]"}
 var c19JsonQueries = []string{"", "{}", "[]", "a", "a[0]", "a{b,c}", "a.b", "[0]", "a[]", "{a, b}", "{a as x, b.c}", "a{}", "[1]{a}"}
 var c19BadOptions = map[string][]string{
 	"delimiter": {"", "ab", "\\", "''"}, "positions": {"[5,3]", "[-1]", "[", "x", "[1.5]", "[99999999999999999999]", "S", "null", "[\"1\"]"},
